@@ -336,6 +336,15 @@ def install_fs(ex, fs):
             raise IoErr('NotFound')
         return MetaV(n.kind)
     add(r'(?:std::fs::)?symlink_metadata::<.*>', wrap(symlink_metadata))
+
+    def path_exists(ex, c, a):
+        try:
+            t = fs.resolve(P(a[0]), True)
+        except IoErr:
+            return False
+        return t in fs.nodes
+    add(r'(?:std::path::)?Path::exists|(?:std::path::)?Path::try_exists', path_exists)
+    add(r'(?:std::path::)?Path::is_dir', lambda ex, c, a: (lambda t: t in fs.nodes and fs.nodes[t].kind == 'dir')(fs.resolve(P(a[0]), True)))
     add(r'(?:std::fs::)?DirEntry::file_name', lambda ex, c, a: deref(a[0]).name if isinstance(deref(a[0]), StdDirEntry) else NotImplemented)
     add(r'(?:std::fs::)?metadata::<.*>', wrap(metadata))
     add(r'(?:std::fs::)?Metadata::file_type', lambda ex, c, a: deref(a[0]))
